@@ -19,8 +19,16 @@ fn id_num(id: &BuildpackId) -> u64 {
 pub fn run(case: &Value) -> Value {
     let tmp = tempfile::tempdir().expect("tempdir");
     let nodes = case["nodes"].as_array().expect("nodes");
+    // directory layout: flat siblings, or -- for nodes with a "parent" (an earlier node) -- nested inside
+    // that buildpack's directory (a composite holding its components); discovery must find all of them
+    let mut dirs: Vec<PathBuf> = vec![];
     for (k, node) in nodes.iter().enumerate() {
-        let dir = tmp.path().join(format!("d{k:03}"));
+        let base = match node["parent"].as_u64() {
+            Some(j) if usize::try_from(j).unwrap() < k => dirs[usize::try_from(j).unwrap()].join("buildpacks"),
+            _ => tmp.path().to_path_buf(),
+        };
+        let dir = base.join(format!("d{k:03}"));
+        dirs.push(dir.clone());
         fs::create_dir_all(&dir).unwrap();
         let id = node["id"].as_u64().unwrap();
         fs::write(
